@@ -8,7 +8,7 @@ MANIFEST = {
     "engine": "tlc PushGen + vhnet c38, vsrv, git daemon",
     "technique": "TLC enumerates push scenarios ((local, remote) reference pairs over small commit graphs: fast-forward, diverged, new, deleted, tag moved x refspec sets x force / force-with-lease ok|stale / atomic) with the per-item verdict and the remote post-state computed by the TLA+ Push action; a seeded sample is realised with git fast-import and pushed through go-git->go-git (file), go-git->git (git daemon receive-pack) and git->go-git (vsrv) after git->git confirmed the specification; remote refs, client status and git fsck --connectivity-only on the remote are compared",
     "text": "TLC: every scenario over 3 (thorough: all 18 connected) four-commit graphs x 3 local x 4 remote values of the pushed head x 5 tag pairs x 7 refspec sets x options (~8k / ~50k states); theorems: denied items untouched, only fast-forwards unless forced/leased, tags sticky, stale lease holds, atomic all-or-nothing. Replay: seeded sample walking the verdict keys round-robin (quick 4, thorough 80 scenarios x 3 pairings + git->git witness; plus quick 120 / thorough 2000 scenarios go-git->go-git in process).",
-    "note": "Replay is a sample (each pairing costs ~40 git processes); annotated tags / follow-tags, prune, wildcard refspecs, push options and http/ssh are not generated; a go-git client that aborts a whole push where git applies the allowed items is admitted (counted, not a divergence); git refuses --atomic against go-git's server (capability not advertised), those combinations are skipped on that leg.",
+    "note": "Replay is a sample (each pairing costs ~40 git processes); prune is generated with one identity wildcard, one renaming wildcard and one exact renaming refspec (PruneGen: 2208 scenarios, forced and unforced, with and without prune); annotated tags / follow-tags, push options and http/ssh are not generated; a go-git client that aborts a whole push where git applies the allowed items is admitted (counted, not a divergence); git refuses --atomic against go-git's server (capability not advertised), those combinations are skipped on that leg.",
 }
 
 CFG = """CONSTANTS
@@ -22,6 +22,20 @@ CFG = """CONSTANTS
 INIT Init
 NEXT Next
 INVARIANTS DeniedUntouched OkExact OnlyFF TagsSticky LeaseHolds AtomicAllOrNothing Emit
+CHECK_DEADLOCK FALSE
+"""
+
+
+PRUNE_CFG = """CONSTANTS
+ N = 4
+ Dags <- MCQDags
+ LAs <- MCLAs
+ LBs <- MCLBs
+ RVals <- MCRVals
+ EmitAll = TRUE
+INIT Init
+NEXT Next
+INVARIANTS SourceKept NoPruneNoDelete PrunedOnlyOrphans OutsideUntouched DeniedKept Emit
 CHECK_DEADLOCK FALSE
 """
 
@@ -70,6 +84,30 @@ def run(ctx):
                        "seeded sample that walks the distinct (verdicts, refspec set, options) keys round-robin; distinct = distinct (scenario, pairing); "
                        "non-trivial = a real push whose remote refs, client status and remote connectivity are compared")
     ctx.vh("c38", [sp, vsrv, peers, bulk], pkg="vhnet", timeout=3400)
+    # ---- push --prune with identity and renaming refspecs (PruneGen) ----
+    rp = ctx.tlc("MCPrune", cfg_text=PRUNE_CFG, workers=1, timeout=1500)
+    prs = ctx.printed_json(rp)
+    if not prs:
+        raise vlib.ToolingError("TLC printed no prune scenarios")
+    rnd.shuffle(prs)
+    pst = {}
+    for s in prs:
+        pst.setdefault((s["scn"]["kind"], s["scn"]["force"], s["scn"]["prune"]), []).append(s)
+    # prune with a renaming refspec first (they reach the git->git witness and every pairing), forced before unforced
+    pkeys = sorted(pst, key=lambda k: (not k[2], k[0] == "id", not k[1], k[0]))
+    ppeers, pbulk = (40, 1500) if ctx.thorough else (3, 110)
+    ppicked = []
+    while len(ppicked) < ppeers + pbulk and any(pst.values()):
+        for k in pkeys:
+            if pst[k] and len(ppicked) < ppeers + pbulk:
+                ppicked.append(pst[k].pop())
+    pp = ctx.path("prune_scn.ndjson")
+    with open(pp, "w") as f:
+        for s in ppicked:
+            f.write(json.dumps(s) + "\n")
+    ctx.cov["bounds"]["prune_scenarios_enumerated"] = len(prs)
+    ctx.cov["bounds"]["prune_scenarios_replayed"] = len(ppicked)
+    ctx.vh("c38prune", [pp, vsrv, ppeers, pbulk], pkg="vhnet", timeout=3400)
     ctx.assumptions += [
         "git 2.39.5 -> git 2.39.5 on the same scenario is the witness for the specification (spec error if it disagrees)",
         "the client holds remote-tracking refs for the remote heads whose commits it has (go-git's lease check resolves them)",
